@@ -484,6 +484,9 @@ func (i *Interpreter) eval(expr ast.Expr, env *environment.Environment, isRepl b
 			if signal.Type == ControlFlowBreak {
 				break // Exit the loop
 			}
+			if signal.Type == ControlFlowReturn {
+				return nil, signal // Leave the enclosing function
+			}
 		}
 		return nil, &ControlFlowSignal{Type: ControlFlowNone, LineNumber: 0}
 
